@@ -22,7 +22,8 @@ def manifest_text(pid):
     return None
 
 
-TEXT = {p["id"]: manifest_text(p["id"]) for p in props}
+CLAIMED = set(open(os.path.join(ROOT, "tools", "claimed.txt")).read().split())
+TEXT = {p["id"]: manifest_text(p["id"]) for p in props if p["id"] in CLAIMED}
 TEXT = {k: v for k, v in TEXT.items() if v}
 checks, na = [], []
 for p in props:
